@@ -42,7 +42,7 @@ for n in names:
     lines.append("| %s | `%s` | %s | `%s` | %s |" % (n, ", ".join(files), summ.get(n, ""), sig.replace("|", "\\|"), first))
 total = len(names)
 text = []
-text.append("%d seeded changes (two per property and wave; wave 1+2 = `-1`/`-2`, wave 3 = `-3`/`-4`, wave 4 = `-5`/`-6`, wave 5 = `-7`/`-8`, wave 6 = `-9`/`-10`, half a wave 7 = `-11`/`-12` for ten properties, written by 110 independent\n"
+text.append("%d seeded changes (two per property and wave; wave 1+2 = `-1`/`-2`, wave 3 = `-3`/`-4`, wave 4 = `-5`/`-6`, wave 5 = `-7`/`-8`, wave 6 = `-9`/`-10`, wave 7 = `-11`/`-12` of ten properties, wave 8 = `-11`/`-12` of the other ten, wave 9 = `-13`/`-14` of the first ten; written by 130 independent\n"
             "sub-agents that saw only the property record and a scratch worktree; every one confirmed by me in that worktree: applies,\n"
             "builds, baseline suite passes, demonstration fails with it and passes without). `tools/triage_seed.py` does the\n"
             "confirmation and the first run of the owning quick check (in an isolated copy of /verif against a clone of /repo),\n"
@@ -50,7 +50,14 @@ text.append("%d seeded changes (two per property and wave; wave 1+2 = `-1`/`-2`,
             "quick tier as it was when the seed arrived, %d were missed and are caught after the check was strengthened - never by\n"
             "special-casing the seed: each change widened a generator or added an oracle that follows from the property text.\n"
             "Several agents arrived at the same change independently (marked \"same idea as\").\n" % (total, total - len(missed), len(missed)))
-wave = lambda n: {1: "1+2", 2: "1+2", 3: "3", 4: "3", 5: "4", 6: "4", 7: "5", 8: "5", 9: "6", 10: "6", 11: "7", 12: "7"}[int(n.split("-")[1])]
+W7 = {"C01", "C02", "C03", "C04", "C05", "C07", "C12", "C13", "C16", "C20"}
+def wave(n):
+    pid, k = n.split("-")[0], int(n.split("-")[1])
+    if k in (11, 12):
+        return "7" if pid in W7 else "8"
+    if k in (13, 14):
+        return "9"
+    return {1: "1+2", 2: "1+2", 3: "3", 4: "3", 5: "4", 6: "4", 7: "5", 8: "5", 9: "6", 10: "6"}[k]
 per = {}
 for n in names:
     per.setdefault(wave(n), [0, 0])[0] += 1
@@ -59,7 +66,7 @@ for n, _ in missed:
 text.append("Missed at first, per wave: " + ", ".join("wave %s: %d of %d" % (w, per[w][1], per[w][0]) for w in sorted(per)) +
             ". The prompts changed between waves (3: away from the obvious function; 4: helpers, storage, HTTP layer, faults and concurrency;\n"
             "5: same with a warning that the obvious sites were taken; 6: one data- / configuration-dependent change and one interaction of two\n"
-            "features per agent; 7: one change in a file outside the anchors and one behind a rarely used request variant) - the miss rate follows the novelty of the prompt, not the age of the checks.\n")
+            "features per agent; 7: one change in a file outside the anchors and one behind a rarely used request variant; 8 and 9: one change in a second-order place - helper, storage, serialisation, error or start-up path - that needs a multi-step history or an input class, and one made of two cooperating edits or an interaction of two features) - the miss rate follows the novelty of the prompt, not the age of the checks.\n")
 text.append("\n".join(lines))
 text.append("\nWhat the %d misses taught (the generator / oracle change is general, the seed only exposed the hole):\n" % len(missed))
 text.append("\n".join("* **%s** - %s." % (n, h.rstrip(".")) for n, h in missed))
